@@ -33,7 +33,7 @@ func c19XMLSet(c *Ctx) *CaseSet {
 	if c19xmlSet == nil {
 		c19xmlSet = c.NewSet("mdxml", "Base Time Escape Keys Marshal Metadata CorrDiff", "(c19_case * val)",
 			"fun i => same_as (snd i) (c19_xml_obs (fst i))")
-		c19xmlSet.PerShard = 60
+		c19xmlSet.PerShard = 25
 	}
 	return c19xmlSet
 }
@@ -67,7 +67,13 @@ func c19XMLVal(ed *types.EntityDescriptor, err error) string {
 	if merr != nil {
 		return VC("Ok", VC("Err", VC("Other")))
 	}
-	return VC("Ok", VC("Ok", "(VS "+SPieces(string(b))+")"))
+	// what the real xml.Unmarshal reads back from the real bytes (model side: XmlTok.read_tree + Schema.v's interpreter)
+	back := VC("UnmarshalErr")
+	var bd types.EntityDescriptor
+	if uerr := xml.Unmarshal(b, &bd); uerr == nil {
+		back = VC("Ok", getC19Mat().edVal(&bd))
+	}
+	return VC("Ok", VC("Ok", VL([]string{"(VS " + SPieces(string(b)) + ")", back})))
 }
 
 func c19AddXMLCase(c *Ctx, input string, md *types.EntityDescriptor, mdErr error, mds *types.EntityDescriptor, mdsErr error, desc string) {
